@@ -11,6 +11,7 @@ mod eng_seq;
 mod eng_par;
 mod eng_viz;
 mod eng_ex;
+mod eng_exmodel;
 mod exgen;
 mod exgen_b;
 
@@ -53,6 +54,7 @@ fn main() {
         "parstress" => eng_par::run_parstress(&a),
         "viz" => eng_viz::run_viz(&a),
         "ex" => eng_ex::run_ex(&a),
+        "exmodel" => eng_exmodel::run_exmodel(&a),
         e => { eprintln!("unknown engine {}", e); std::process::exit(2); }
     }
 }
